@@ -72,6 +72,9 @@ pub struct Opts {
     pub spacing_mode: u32,
     /// the line breaks INSIDE multi-line tokens (block comments, multi-line literals) are CRLF (a CRLF source file)
     pub crlf_tokens: bool,
+    /// the gaps INSIDE verbatim regions come from the decoration seed (so that every re-layout keeps the region's bytes),
+    /// and now and then a second `pasfmt off` comment stands inside the region (it must not nest)
+    pub fixed_regions: bool,
 }
 
 #[derive(Debug, Clone)]
@@ -308,7 +311,7 @@ pub fn render(p: &Program, deco: u64, spacing: u64, o: &Opts) -> Rendered {
                     // zero-width gaps, except after a literal: there the formatter deliberately keeps "at most one" space
                     // of the input (known finding F8), which is probed separately
                     63..=67 => if o.tight && !toks[i - 1].starts_with(|c: char| c.is_ascii_digit() || matches!(c, '$' | '%' | '\'' | '#')) { String::new() } else { " ".to_string() },
-                    68..=70 => if o.regions2 { format!("{nl}{nl}{nl}") } else { nl.to_string() },
+                    68..=70 => if o.regions2 && !o.fixed_regions { format!("{nl}{nl}{nl}") } else { nl.to_string() },
                     71..=84 => nl.to_string(),
                     _ => format!("{nl}{}", " ".repeat(r.gen_range(1..13))),
                 },
@@ -336,8 +339,27 @@ pub fn render(p: &Program, deco: u64, spacing: u64, o: &Opts) -> Rendered {
             need_newline = false;
             inserted += 1;
         }
-        let after_directive = !dir_before[i].is_empty();
-        match &deco_before[i] {
+        // (the line break after a region's `on` comment belongs to the decoration, like the one after a directive)
+        let after_directive = !dir_before[i].is_empty() || (o.fixed_regions && i > 0 && region_ending_at(i - 1).is_some_and(|x| !x.3.is_empty()) && text.ends_with(nlc));
+        let fixed_here = o.fixed_regions && in_region && region_starting_at(i).is_none() && !after_directive;
+        if fixed_here {
+            let mut rd = gap_rng(deco, i, 31);
+            match rd.gen_range(0..100) {
+                0..=7 => {
+                    text.push_str("\n// pasfmt off\n");
+                    inserted += 1;
+                }
+                8..=59 => text.push(' '),
+                60..=69 => text.push_str("   "),
+                70..=84 => text.push('\n'),
+                _ => {
+                    text.push('\n');
+                    text.push_str(&" ".repeat(rd.gen_range(1..9)));
+                }
+            }
+            need_newline = false;
+        }
+        match if fixed_here { &Deco::None } else { &deco_before[i] } {
             Deco::Blank => {
                 // a blank-line group: the group itself is kept by every re-layout, its indentation is free
                 if !after_directive {
@@ -400,7 +422,9 @@ pub fn render(p: &Program, deco: u64, spacing: u64, o: &Opts) -> Rendered {
                 inserted += 1;
             }
             Deco::None => {
-                if after_directive {
+                if fixed_here {
+                    // (gap already written)
+                } else if after_directive {
                     // a gap that touches a directive is kept by every re-layout
                     text.push_str(&ind_c);
                 } else if in_region && region_starting_at(i).is_some() {
@@ -445,7 +469,7 @@ pub fn render(p: &Program, deco: u64, spacing: u64, o: &Opts) -> Rendered {
         regions.push((s, text.len(), true));
         open_at_eof = true;
     }
-    if !open_at_eof && (o.spacing_mode == 1 || o.spacing_mode == 4 || o.spacing_mode == 5) {
+    if !open_at_eof && (o.spacing_mode == 1 || o.spacing_mode == 4 || o.spacing_mode == 5) && !(o.fixed_regions && text.ends_with(['\n', '\r'])) {
         text.push_str(nl);
     }
     Rendered { text, plain: toks, marks, regions, inserted, idents }
@@ -502,7 +526,10 @@ impl Suite for Programs {
                     o2.tight = false;
                     a = render(p, deco, *s, &o2);
                 }
-                if scans_as_intended(&a) && a.regions.is_empty() {
+                // verbatim regions: only layouts that keep the regions' bytes are re-layouts (fixed_regions)
+                let same_regions = a.regions.len() == r.regions.len()
+                    && a.regions.iter().zip(&r.regions).all(|(x, y)| x.2 == y.2 && a.text[x.0..x.1] == r.text[y.0..y.1]);
+                if scans_as_intended(&a) && (a.regions.is_empty() || (o.fixed_regions && same_regions)) {
                     alts.push(a.text);
                 }
             }
